@@ -176,6 +176,18 @@ type knownFinding struct {
 	Commit   string `json:"commit,omitempty"`
 }
 
+func isKnownSig(prop, sig string) bool {
+	for _, k := range loadKnown() {
+		if k.Property != prop || k.Status != "open" {
+			continue
+		}
+		if re, err := regexp.Compile(k.Match); err == nil && re.MatchString(sig) {
+			return true
+		}
+	}
+	return false
+}
+
 func loadKnown() []knownFinding {
 	b, err := os.ReadFile(filepath.Join(verifDir, "known_findings.json"))
 	if err != nil {
@@ -267,6 +279,8 @@ func runCheck(sp *spec, tier, params string, jobs int, budget time.Duration, see
 	var results []*result
 	var engineErrs []string
 	next := 0
+	sawViolation := false
+	stopAtFirst := os.Getenv("VERIF_STOP_AT_FIRST") != "" // tooling (mutation sweeps): stop dispatching after the first violation
 	var wg sync.WaitGroup
 	for w := 0; w < jobs; w++ {
 		wg.Add(1)
@@ -274,7 +288,7 @@ func runCheck(sp *spec, tier, params string, jobs int, budget time.Duration, see
 			defer wg.Done()
 			for {
 				mu.Lock()
-				if next >= len(chunks) {
+				if next >= len(chunks) || (stopAtFirst && sawViolation) {
 					mu.Unlock()
 					return
 				}
@@ -302,6 +316,11 @@ func runCheck(sp *spec, tier, params string, jobs int, budget time.Duration, see
 						}
 					}
 					results = append(results, r)
+					for _, v := range r.Violations {
+						if !isKnownSig(sp.ID, v.Signature) {
+							sawViolation = true
+						}
+					}
 				}
 				mu.Unlock()
 			}
